@@ -112,8 +112,6 @@ def fresh_twins(prop, tier, seed, specs, results, entries):
     cfg = profiles.FRESH[prop]
     idxs = [i for i, r in enumerate(results) if r is not None and r.get("decision_digest") and not r.get("harness_error")
             and not r.get("build_error")]
-    if tier == "quick":
-        idxs = idxs[: max(60, len(idxs) // 6)]
     if not idxs:
         return [], 0
     env = dict(os.environ, VERIF_HASHSEED=cfg["hashseed"], PYTHONHASHSEED=cfg["hashseed"])
